@@ -85,4 +85,41 @@ theorem C17_volume_rbac_readiness_guards_are_source (fv es ga dr rn : Bool) :
   cases fv <;> cases es <;> cases ga <;> cases dr <;> exact ⟨rfl, rfl, rfl⟩
 
 
+/-! ## the suggestion controller's `Reconcile` -/
+
+def sugPlanGen (v : World) (k : Key2) (env : SugEnv) (now : Nat) : Prog :=
+  match findSug v k with
+  | none => .done .ok
+  | some s =>
+    let dk := infraKey k
+    let G (g : Bool → Bool → Bool → Bool → Bool → Bool → Bool → Bool → Bool → Bool) : Bool :=
+      g false false false false false (sHas s .succeeded) (sHas s .created) false false
+    -- `deleteDeployment` / `deleteService` issue the delete only for an object that exists
+    let delSvc : Prog :=
+      if G callDeleteServiceGuard && v.svcs.contains dk then .step (.svcDelete dk) (.done .ok) (.done .err) else .done .ok
+    if G callDeleteDeploymentGuard then
+      if (findDeploy v dk).isSome then .step (.deployDelete dk) delSvc (.done .err) else delSvc
+    else if G markSugCreatedGuard then
+      sugFinish s { s.st with started := true, conds := Cond.set s.st.conds .created true rSugCreated now }
+    else if G callReconcileSuggestionGuard then sugReconcile v s env now
+    else .done .ok
+
+theorem C16_suggestion_reconcile_guards_known :
+    callDeleteDeploymentGuardUnknown = [] ∧ callDeleteServiceGuardUnknown = [] ∧ markSugCreatedGuardUnknown = [] ∧
+    callReconcileSuggestionGuardUnknown = [] ∧ callDeleteDeploymentGuardSites = 1 ∧ callDeleteServiceGuardSites = 1 ∧
+    markSugCreatedGuardSites = 1 ∧ callReconcileSuggestionGuardSites = 1 := by decide
+
+set_option linter.unusedSimpArgs false in
+/-- **C16_suggestion_controller_is_source**: a Succeeded Suggestion only loses its Deployment and Service; otherwise Created is
+    marked first and `ReconcileSuggestion` runs for a Created one -/
+theorem C16_suggestion_controller_is_source (v : World) (k : Key2) (env : SugEnv) (now : Nat) :
+    sugPlan v k env now = sugPlanGen v k env now := by
+  unfold sugPlan sugPlanGen callDeleteDeploymentGuard callDeleteServiceGuard markSugCreatedGuard callReconcileSuggestionGuard
+  cases hs : findSug v k with
+  | none => rfl
+  | some s =>
+    cases h1 : sHas s .succeeded <;> cases h2 : sHas s .created <;> cases h3 : (findDeploy v (infraKey k)).isSome <;>
+      cases h4 : v.svcs.contains (infraKey k) <;> simp [h1, h2, h3, h4]
+
+
 end Katib.Gen
